@@ -230,11 +230,23 @@ pub struct Batch {
 
 /// Execute runs `0..n` on `workers` threads. `f(index)` must be a pure function of `index`
 /// (and of captured immutable data).
+static WINDOW_FIRST: AtomicU64 = AtomicU64::new(0);
+static WINDOW_COUNT: AtomicU64 = AtomicU64::new(u64::MAX);
+
+/// Restrict every following `run_batch` to the run indices `first .. first + count` (used by the runner to isolate
+/// the run during which the code under test crashed or hung the process: `--first` / `--count`).
+pub fn set_index_window(first: u64, count: u64) {
+    WINDOW_FIRST.store(first, Ordering::Relaxed);
+    WINDOW_COUNT.store(count, Ordering::Relaxed);
+}
+
 pub fn run_batch<F>(n: u64, workers: usize, sample_every: u64, f: F) -> Batch
 where
     F: Fn(u64, bool) -> RunReport + Sync,
 {
-    let next = AtomicU64::new(0);
+    let first = WINDOW_FIRST.load(Ordering::Relaxed).min(n);
+    let n = first.saturating_add(WINDOW_COUNT.load(Ordering::Relaxed)).min(n);
+    let next = AtomicU64::new(first);
     let merged: Mutex<(Batch, BTreeSet<u64>, BTreeMap<u64, Value>)> =
         Mutex::new((Batch::default(), BTreeSet::new(), BTreeMap::new()));
     let workers = workers.max(1);
@@ -385,6 +397,9 @@ impl Args {
                 eprintln!("unexpected argument {:?}", v[i]);
                 std::process::exit(2);
             }
+        }
+        if a.map.contains_key("first") || a.map.contains_key("count") {
+            set_index_window(a.num("first", 0), a.num("count", u64::MAX));
         }
         a
     }
